@@ -42,12 +42,12 @@ async fn run_once(case: &SubCase, drop_at: Option<usize>, obs: &mut Obs) {
 						w.failures.push((sig("c06/closed-future-disagrees-with-model"), format!("{}; model closed={closed_now}", ctx())));
 					}
 				}
-				(Cmd::Send(_), Ack::SendOk) | (Cmd::TrySend(_), Ack::TrySendOk) => {
+				(Cmd::Send(_), Ack::SendOk) | (Cmd::SendTimeout(_), Ack::SendOk) | (Cmd::TrySend(_), Ack::TrySendOk) => {
 					if closed_before {
 						w.failures.push(("c06/send-on-closed-subscription-accepted".into(), ctx()));
 					}
 				}
-				(Cmd::Send(_), Ack::SendErr) | (Cmd::TrySend(_), Ack::TrySendClosed) => {
+				(Cmd::Send(_), Ack::SendErr) | (Cmd::SendTimeout(_), Ack::SendErr) | (Cmd::TrySend(_), Ack::TrySendClosed) => {
 					if !closed_now {
 						w.failures.push((sig("c06/send-on-active-subscription-failed"), ctx()));
 					}
